@@ -51,7 +51,7 @@ try:
         print(out_clean[-300:], "\n---\n", out_mut[-300:])
     if a.tests:
         t0 = time.time()
-        r = subprocess.run("/venv/bin/python -m pytest -q -p no:cacheprovider -p no:randomly -x -n 6 %s" % a.tests, shell=True, cwd=mut,
+        r = subprocess.run("/venv/bin/python -m pytest -q -p no:cacheprovider -p no:randomly -x -n 6 --deselect tensorly/tests/test_backend.py::test_svd_time %s" % a.tests, shell=True, cwd=mut,
                            env=dict(env, PYTHONPATH=mut), capture_output=True, text=True, timeout=3600)
         tail = (r.stdout + r.stderr).strip().split("\n")[-1]
         meta["tests_run"], meta["tests_rc"], meta["tests_tail"] = a.tests, r.returncode, tail
